@@ -129,7 +129,10 @@ theorem nodev (t : Tree) : ∀ (c : Nat) (f : Flags) (i : Bool) (K : KSt),
     unfold NoDev
     simp only [sp, spK, KSt.st]
     by_cases hc : (f.n && c != entryId) = true
-    · simp only [hc, if_true]; intro hd; exact ⟨hd, rfl⟩
+    · simp only [hc, if_true]
+      by_cases hl : K.ev.length < maxNotifications
+      · simp only [hl, if_true]; intro hd; exact ⟨hd, rfl⟩
+      · simp only [hl, if_false]; intro hd; exact ⟨hd, rfl⟩
     · simp only [hc, if_false]; intro hd; exact ⟨hd, rfl⟩
   | ifp k body ih =>
     intro c f i K
@@ -313,6 +316,9 @@ theorem nodev (t : Tree) : ∀ (c : Nat) (f : Flags) (i : Bool) (K : KSt),
             obtain ⟨a1, a2⟩ := hk hd
             rw [a2]; exact ⟨a1, rfl⟩
         simp only [spPhase, spKPhase]
+        by_cases hlim : maxNotifications < (K.ev ++ out.evs).length
+        · simp only [hlim, if_true]; intro hd; exact ⟨hd, rfl⟩
+        simp only [hlim, if_false]
         cases hcb : out.cb with
         | none =>
           simp only
